@@ -31,6 +31,9 @@ CLAIMED = {
  'C14': ('M', 'symbolic execution of the MIR of the simd.rs kernels (sum/min/max: scalar 4-way unrolled, AVX2, and the dispatchers with symbolic feature detection) into Z3, one obligation set per concrete slice length with symbolic contents; AVX2 intrinsics as 4-lane IEEE operations, raw pointers as (slice, offset) with in-bounds obligations; native replay through the public kernels and, via cfg(varpulis_verif) hooks, the scalar kernels',
          'Solver-decided for every slice length 0..6 (quick) / 0..9 (thorough) — every residue of the 4-lane split on both sides of a full chunk: sum returns exactly the sum on the exact domain (integer-valued inputs |x| <= 2^20: a dropped, duplicated or mis-indexed element changes it), min/max return an element that bounds all elements for all non-NaN doubles, empty input gives no value, scalar and AVX2 targets agree, no out-of-bounds access and no arithmetic panic.',
          'PARTIAL claim: the numeric kernels under sum/avg/min/max only. Outside: floating-point rounding of general sums, the Aggregator apply / apply_refs / apply_columnar wrappers over events and the columnar buffer, avg/stddev/ema/first/last/count_distinct, NaN/missing handling of the callers. Sum kernels are checked on the exact integer domain (IEEE + = integer + below 2^53). Trusted: intrinsic models listed in evidence.', 'DESIGN.md §4 C14'),
+ 'C34': ('M', 'symbolic execution of the MIR of event_type_matches, find_target_pipeline and ReplicaGroup::select_replica (varpulis-cluster) into Z3 with event types, patterns and pipeline names as terms of the string theory (unbounded length); native probe replay',
+         'Solver-decided: event_type_matches equals its specification for ALL strings; find_target_pipeline returns the target of the first route in declaration order with a matching pattern, else the first pipeline, else None, for every table of <= 2 (thorough 3) routes x <= 2 patterns with symbolic strings; round-robin select_replica picks replica (counter mod n) and advances the counter by one from any counter value (so loads over any run differ by at most one until the counter wraps), and returns the pipeline name when there are no replicas.',
+         'PARTIAL claim. Outside: key-hash stickiness and single-vs-batch key rendering (serde_json formatting + SipHash), coordinator resolve_inject_target / inject_batch wrappers, counter wrap at 2^64. Trusted: string-operation models (==, strip_suffix(char), starts_with), atomic fetch_add as read-then-add.', 'DESIGN.md §4 C34'),
  'C40': ('M', 'symbolic execution of the MIR of <Value as PartialEq>::eq, float_eq and <Value as Hash>::hash (varpulis-core) into Z3 on symbolic values of every scalar variant, short arrays and maps in both insertion orders, with hashing observed through a recording hasher (exact write sequence); native probe replay',
          'Solver-decided: equality is reflexive, symmetric and transitive (three symbolic values) and eq(a, b) implies identical hasher write sequences (hence equal hashes for every Hasher), for all scalar variants with fully symbolic payloads (all f64 bit patterns incl. NaN/-0.0, all i64/u64, booleans, strings as identity tokens), arrays of <= 2 scalars and maps of <= 2 entries with distinct keys in either insertion order.',
          'Trusted: MIR dump + executor; IndexMap equality modelled by its documented semantics (order-independent), iteration in insertion order; nested hashers modelled as uninterpreted folds of their write sequence. Outside: containers nested deeper than one level or longer than 2.', 'DESIGN.md §4 C40'),
